@@ -689,107 +689,3 @@ Proof.
 Qed.
 Print Assumptions metrics_never_out_of_fuel.
 
-(* ------------------------------------------------------------------------------------ *)
-(* 7. calendar alignment of the windows: the values of [current] are local period boundaries in the
-      sense of Spec/MetricsSpec.v is_boundary (hour: mm:ss = 00:00; day: midnight; week: Monday
-      midnight; month: the 1st, midnight; year: 1 January, midnight), each step adds exactly the
-      length of the period beginning there (plen), and the first one is the period containing the
-      wall clock of the range start *)
-
-Definition bdy (p : period) (c : Z) : Prop :=
-  match p with
-  | PHour => c mod 3600 = 0
-  | PDay => c mod DAY = 0
-  | PWeek => c mod DAY = 0 /\ weekday (c / DAY) = 0
-  | PMonth => month_start c
-  | PYear => year_start c
-  | PFull => True
-  end.
-
-Definition step (p : period) : Z -> Z :=
-  match p with
-  | PHour => next_hour | PDay => next_day | PWeek => next_week | PMonth => next_month | PYear => next_year
-  | PFull => fun c => c
-  end.
-
-Definition snap (p : period) (w : Z) : Z :=
-  match p with
-  | PHour => dt_ymdh (w_year w) (w_month w) (w_day w) (w_hour w)
-  | PDay => dt_ymd (w_year w) (w_month w) (w_day w)
-  | PWeek => dt_ymd (w_year w) (w_month w) (w_day w) - weekday (wall_day w) * DAY
-  | PMonth => dt_ymd (w_year w) (w_month w) 1
-  | PYear => dt_ymd (w_year w) 1 1
-  | PFull => w
-  end.
-
-Definition fuel_unit (p : period) : Z :=
-  match p with
-  | PHour => 3600 | PDay => DAY | PWeek => 7 * DAY | PMonth => 28 * DAY | PYear => 365 * DAY | PFull => 1
-  end.
-
-Lemma pwd_unfold z a b p : a < b -> p <> PFull ->
-  period_windows_dt z a b p =
-  win_loop (loop_fuel (fuel_unit p) (snap p (utc_to_wall z a)) (utc_to_wall z b)) z (step p)
-           (snap p (utc_to_wall z a)) (utc_to_wall z b).
-Proof.
-  intros Hab Hp. unfold period_windows_dt. replace (a >=? b) with false by lia.
-  destruct p; try reflexivity. congruence.
-Qed.
-
-Lemma month_start_boundary c : month_start c ->
-  c mod DAY = 0 /\ day_of (c / DAY) = 1 /\ 1 <= month_of (c / DAY) <= 12.
-Proof.
-  intros (y & m & Hm & ->). destruct (w_fields_first y m Hm) as (_ & Em & Ed).
-  unfold w_day, w_month, wall_day in *. split; [apply dt_ymd_mod|]. split; [exact Ed|]. lia.
-Qed.
-
-Lemma year_start_boundary c : year_start c ->
-  c mod DAY = 0 /\ day_of (c / DAY) = 1 /\ month_of (c / DAY) = 1.
-Proof.
-  intros (y & ->). destruct (w_fields_first y 1 ltac:(lia)) as (_ & Em & Ed).
-  unfold w_day, w_month, wall_day in *. split; [apply dt_ymd_mod|]. split; assumption.
-Qed.
-
-Lemma bdy_facts p c : p <> PFull -> bdy p c ->
-  is_boundary p c = true /\ c mod unit_of_period p = 0 /\ step p c = c + plen p c /\
-  c < step p c /\ bdy p (step p c).
-Proof.
-  intros Hp H. destruct p; cbn [bdy is_boundary unit_of_period step plen] in *; try congruence.
-  - unfold next_hour. repeat split; lia.
-  - unfold next_day, DAY in *. repeat split; lia.
-  - destruct H as [H1 H2]. split; [apply andb_true_intro; split; apply Z.eqb_eq; assumption|].
-    unfold next_week, weekday, DAY in *. repeat split; lia.
-  - destruct (month_start_boundary c H) as (B1 & B2 & _).
-    destruct (next_month_exact c H) as [Hn E]. unfold w_year, w_month, wall_day in E.
-    split; [apply andb_true_intro; split; apply Z.eqb_eq; assumption|].
-    split; [exact B1|]. split; [exact E|]. split; [|exact Hn].
-    rewrite E. pose proof (CivilP.dim_bounds (year_of (c / DAY)) (month_of (c / DAY))). unfold DAY. lia.
-  - destruct (year_start_boundary c H) as (B1 & B2 & B3).
-    destruct (next_year_exact c H) as [Hn E]. unfold w_year, wall_day in E.
-    split; [apply andb_true_intro; split; [apply andb_true_intro; split|]; apply Z.eqb_eq; assumption|].
-    split; [exact B1|]. split; [exact E|]. split; [|exact Hn].
-    rewrite E. pose proof (CivilP.diy_bounds (year_of (c / DAY))). unfold DAY. lia.
-Qed.
-
-(* the first boundary: the period containing wall clock value w *)
-Lemma snap_facts p w : p <> PFull -> bdy p (snap p w) /\ snap p w <= w < step p (snap p w).
-Proof.
-  intros Hp. destruct p; cbn [bdy snap step]; try congruence.
-  - unfold next_hour, dt_ymdh, w_year, w_month, w_day, w_hour, mk_wall. rewrite civil_roundtrip.
-    unfold wall_day, wall_sod, DAY. lia.
-  - unfold next_day. rewrite dt_ymd_wall. unfold wall_day, DAY. lia.
-  - unfold next_week. rewrite dt_ymd_wall. unfold weekday, wall_day, DAY. lia.
-  - split; [apply month_start_snap|]. split; [apply snap_month|].
-    destruct (w_fields_first (w_year w) (w_month w) (w_month_range w)) as (Ey & Em & _).
-    unfold next_month. rewrite Ey, Em. clear Ey Em.
-    unfold dt_ymd, w_year, w_month, year_of, month_of, mk_wall.
-    pose proof (civil_facts (wall_day w)) as F. destruct (civil_from_days (wall_day w)) as [[y m] dd].
-    cbn [fst snd]. destruct F as (_ & _ & _ & F & _). unfold next_month_start in F.
-    destruct (m =? 12); unfold wall_day, DAY in *; lia.
-  - split; [apply year_start_snap|]. split; [apply snap_year|].
-    destruct (w_fields_first (w_year w) 1 ltac:(lia)) as (Ey & _ & _).
-    unfold next_year. rewrite Ey. clear Ey.
-    unfold dt_ymd, w_year, year_of, mk_wall.
-    pose proof (civil_facts (wall_day w)) as F. destruct (civil_from_days (wall_day w)) as [[y m] dd].
-    cbn [fst snd]. destruct F as (_ & _ & _ & _ & F & _). unfold wall_day, DAY in *. lia.
-Qed.
